@@ -108,6 +108,12 @@ def gen_plan(S, index, tier):
         cfg['small_alpha'] = True      # repeated residues: equal letters carrying different modifications
     sp = SP.gen_pep(S, cfg)
     faults = [f for f in ('rng', 'abandon') if S.coin(0.6)]
+    objs = ['X0']
+    sp_y = None
+    if S.coin(0.35):
+        # a second, unrelated live peptide worked on alternately (state shared between different objects)
+        sp_y = SP.gen_pep(S, cfg)
+        objs.append('Y0')
     pool = {'X0': {'kind': 'ann', 'via': S.pick(['parse', 'create']), 'spec': sp}}
     if pool['X0']['via'] == 'create':
         pool['X0']['order'] = SP.gen_order(S, sp)
@@ -165,6 +171,11 @@ def gen_plan(S, index, tier):
                 events.append({'act': 'op', 'op': 'shift', 'n': 0, 'rel': '0', 'macro': 'zero'})
         elif kind == 'rngperturb':
             events.append({'act': 'rng', 'how': S.pick(['draw', 'seed']), 'n': S.randint(1, 99)})
+    if sp_y is not None:
+        pool['Y0'] = {'kind': 'ann', 'via': S.pick(['parse', 'create']), 'spec': sp_y}
+        for ev in events:
+            if ev['act'] in ('op', 'split', 'slice2', 'strfn') and not ev.get('macro'):
+                ev['obj'] = S.pick(objs)
     header.update({'mode': 'random', 'faults': faults, 'with_intervals': with_intervals, 'maxlen': cfg['maxlen']})
     return {'header': header, 'pool': pool, 'events': events}
 
@@ -208,11 +219,23 @@ class _Run(RunBase):
 
     def __init__(self, plan):
         super().__init__(plan)
-        self.x = None
-        self.m = None
+        self.objs = {}       # handle -> {'x': live annotation, 'm': model}
+        self.cur = 'X0'
         self.sib = None
         self.sib_nf = None
         self.macro_start = None
+
+    @property
+    def x(self):
+        return self.objs[self.cur]['x']
+
+    @property
+    def m(self):
+        return self.objs[self.cur]['m']
+
+    @m.setter
+    def m(self, value):
+        self.objs[self.cur]['m'] = value
 
     def on_known(self):
         self.m = ModelPeptide.from_nf(N.norm_ann(self.x))
@@ -262,9 +285,10 @@ def execute(plan):
     pt = Env.pt
     run = _Run(plan)
     out = run.out
-    entry = plan['pool']['X0']
     try:
-        run.x = world.build_ann(entry)
+        for h, entry in plan['pool'].items():
+            if entry['kind'] == 'ann':
+                run.objs[h] = {'x': world.build_ann(entry), 'm': ModelPeptide.from_spec(entry['spec'])}
     except world.BuildMismatch as e:
         out.probes['build_mismatch'] += 1
         out.record(['build_mismatch', str(e)[:200]])
@@ -273,7 +297,6 @@ def execute(plan):
         out.probes['build_failed'] += 1
         out.record(['build_failed', N.norm_exc(e)])
         return out
-    run.m = ModelPeptide.from_spec(entry['spec'])
     random.seed(plan['header'].get('seed', 1) % 1000003)
     shape = []
     g_start = Env.G.cheap()
@@ -283,6 +306,8 @@ def execute(plan):
         shape.append(ev['act'] + ':' + str(ev.get('op') or ev.get('fn') or ''))
         stop = False
         act = ev['act']
+        run.cur = ev.get('obj', 'X0') if ev.get('obj', 'X0') in run.objs else 'X0'
+        others = {h: N.norm_ann(o['x']) for h, o in run.objs.items() if h != run.cur} if len(run.objs) > 1 else None
         if act == 'sibling':
             run.sib = run.x.copy()
             run.sib_nf = N.norm_ann(run.sib)
@@ -310,12 +335,22 @@ def execute(plan):
                 stop = run.violation('INDEP', ev.get('op') or act, 'sibling', f"INDEP: a copy taken earlier changed "
                                                                               f"across event {ev_i}: {d}", ev_i)
                 run.sib_nf = N.norm_ann(run.sib)
+        if not stop and others:
+            # the peptide that was NOT worked on is exactly as before
+            for h, nf0 in others.items():
+                out.oracle_checks += 1
+                d = N.same(nf0, N.norm_ann(run.objs[h]['x']))
+                if d is not None:
+                    stop = run.violation('INDEP', ev.get('op') or act, 'other-object',
+                                         f"INDEP: event {ev_i} on {run.cur} changed the unrelated peptide {h}: {d}", ev_i)
+                    break
+            out.probes['two_live_peptides'] += 1
         if stop:
             break
         if not ev.get('macro'):
             run.macro_start = None
-        out.record([ev_i, N.norm_ann(run.x)])
-        out.states.add(sha(run.m.canon()))
+        out.record([ev_i, [N.norm_ann(o['x']) for o in run.objs.values()]])
+        out.states.add(sha([o['m'].canon() for o in run.objs.values()]))
     out.shape = sha(shape)
     out.nontrivial = out.oracle_checks >= 3 and len(plan['events']) >= 2
     return out
@@ -726,11 +761,11 @@ def _do_strfn(run, ev_i, ev, PP):
 
 def shrink_candidates(plan):
     from sim.props.c08 import _spec_shrinks
-    sp = plan['pool']['X0']['spec']
-    for cand in _spec_shrinks(sp):
-        p2 = copy.deepcopy(plan)
-        p2['pool']['X0']['spec'] = cand
-        yield p2
+    for h0 in [k for k, v in plan['pool'].items() if v['kind'] == 'ann']:
+        for cand in _spec_shrinks(plan['pool'][h0]['spec']):
+            p2 = copy.deepcopy(plan)
+            p2['pool'][h0]['spec'] = cand
+            yield p2
     for i, ev in enumerate(plan['events']):
         if ev.get('op') == 'shift' and ev.get('n') not in (0, 1, -1):
             for k in (1, -1, 0):
@@ -749,7 +784,7 @@ RULE = ("seeded random history of 6-20 reorder / cut operations (reverse with/wi
         "functions) on one generated annotation of length 1-25 (all modification kinds; intervals at start/middle/end "
         "in about a third of the runs), each op executed inplace=True on the live object and inplace=False on a twin. "
         "Distinct = distinct sequence of (event kind, op); non-trivial = at least two events and three oracle comparisons.")
-EXPECTED_PROBES = ['seam_engaged', 'perm_swap_equal', 'mass_invariance_checked', 'slice_reparsed',
+EXPECTED_PROBES = ['two_live_peptides', 'seam_engaged', 'perm_swap_equal', 'mass_invariance_checked', 'slice_reparsed',
                    'slice_composition_checked', 'split_concat_checked', 'identity_macro_rev2', 'identity_macro_k-k',
                    'identity_macro_len', 'shift_by_multiple_of_length', 'slice_touching_interval_boundary',
                    'empty_slice', 'count_residues_checked']
